@@ -130,7 +130,7 @@ func runSessionsOracle(sessions []*Session, key *isoKey) (string, *Witness) {
 		if h.A == a.A && h.B != a.B {
 			here, alone = h.B, a.B
 		}
-		if here != alone {
+		if here != alone && here != overBudgetMark && alone != overBudgetMark {
 			x, y := firstDiffLine(alone, here)
 			rule := ruleOfLine(x)
 			if x == "" {
